@@ -25,8 +25,8 @@ SPEC = {
              "formats x whitespace x trailing columns x boundary flags, plus the repository's sample dumps through an "
              "independent parser; non-trivial = N>=2 and (origin != 0 or triclinic or shuffled order or >1 frame); "
              "distinct = digest of the file text"),
-    "assumptions": ["scaled coordinates are drawn in [0,1) so 'map' and 'map and wrap' agree (wrapping of scaled "
-                    "coordinates is not claimed either way)", "triclinic wrapped-style atoms are drawn inside the cell",
+    "assumptions": ["scaled coordinates: a quarter of the xs frames hold values outside [0,1); the property says scaled coordinates "
+                    "are *mapped* through the cell (only the x style is wrapped), so the expected position is lo + s.H verbatim", "triclinic wrapped-style atoms are drawn inside the cell",
                     "files are well-formed: ids 1..N once each, no trailing blank lines"],
 }
 
@@ -51,6 +51,9 @@ def one_file(ctx, rng, path, via_class):
     N0 = int(rng.choice([1, 2, 3, 5, 8, 13, 21, 40]))
     vary_n = rng.random() < 0.15
     ts = np.sort(rng.choice(np.array([0, 1, 7, 100, 2500, 10 ** 6, 10 ** 9, 123456789]), size=nframes, replace=False))
+    if nframes > 1 and rng.random() < 0.3:
+        # restarts and reset_timestep: equal consecutive timesteps and timesteps going backwards are frames like any other
+        ts = rng.choice(np.array([0, 0, 100, 100, 2500, 7]), size=nframes, replace=True)
     frames = []
     for _k in range(nframes):
         N = N0 if not vary_n else int(rng.integers(1, 30))
